@@ -98,3 +98,23 @@ Proof.
   - eapply sub_nodup; eauto.
   - intros n Hin. eapply sub_in; eauto.
 Qed.
+
+(* otto's for-in loop is complete: every enumerable property that [[GetProperty]] finds from the
+   enumerated object is visited, whichever member of the prototype chain holds it (in particular
+   Object.prototype at the end of the chain) *)
+Lemma m_lookup_in (l : list (Z * mprop)) n p : lookup l n = Some p -> In (n, p) l.
+Proof.
+  induction l as [|[k q] l IH]; cbn; [discriminate|].
+  destruct (k =? n) eqn:E; intro H; [apply Z.eqb_eq in E; inversion H; subst; auto | auto].
+Qed.
+
+Theorem m_forin_complete : forall fuel h a n p,
+  m_get_property fuel h a n = Some p -> enumerable (sm p) = true -> In n (m_forin fuel h a).
+Proof.
+  induction fuel as [|k IH]; intros h a n p G E; cbn in *; [discriminate|].
+  destruct (nth_error h a) as [o|]; [|discriminate].
+  destruct (lookup (m_props o) n) as [q|] eqn:L.
+  - inversion G; subst q. apply in_app_iff. left. unfold m_own_keys. apply in_map_iff.
+    exists (n, p). split; auto. apply filter_In. split; [apply m_lookup_in; auto | exact E].
+  - destruct (m_proto o) as [pa|]; [|discriminate]. apply in_app_iff. right. eapply IH; eauto.
+Qed.
